@@ -49,6 +49,12 @@ CLAIMED = {
  "C20": ("Contracts on the loader: text.flush takes a run of clauses of one predicate in source order after the earlier clauses of that predicate, empties the buffer, and reports an error (changing neither the buffer nor the stored clauses) exactly when the predicate already has clauses in this text and is not discontiguous; the stored clause list never shares its backing array with the buffer; VM.Compile returns the text's or flush's error before the first write to the procedure table (a failed load defines nothing).",
          "Fragment: the per-term loop (VM.compile: parsing, expansion, directives) is trusted to leave the procedure table alone (the property's 'side-effect-free directives') and to keep the text's invariants; the commit loop over the map, multifile merging, initialization goals, include/ensure_loaded are not decided.",
          "contract-based deductive verification: WP over go/ssa with map and slice-of-struct heap model; SMT", "DESIGN.md 5 C20"),
+ "C10": ("Contracts on how a clause is stored: every store compile makes into a clause's term field stores the given term with the bindings in force applied (for facts and rules alike), the body's alternatives and goals are read through iterators built with the clause's environment, the iterators and the goal walkers test the shape of a term only after Env.Resolve (structural data-flow obligation), and clause.varOffset gives a variable one slot: the offset returned names the variable, is its first occurrence, earlier offsets stay valid, a known variable gets no second slot, a new one the next slot.",
+         "Fragment: that the byte code denotes the source term (decompile-after-compile, and exec realising it) is a statement about instruction sequences and is not decided; compileClause/compilePred/compileHeadArg are not under contract; renamedCopy is trusted. F14b (a disjunctive clause is stored once per disjunct) is an open known finding.",
+         "contract-based deductive verification: WP over go/ssa with at-store obligations, loop invariants, structural data-flow obligations", "DESIGN.md 5 C10"),
+ "C11": ("Contracts on the collectors: variant/3 builds a renaming that is injective (loop invariant over the map and its inverse) and tests term shapes only after Env.Resolve; findall/3 takes, per solution, a copy of the template in that solution's environment, appends it at the end of the answers, asks for the next solution, solves the goal and unifies the result list in the environment findall/3 was called in with the caller's continuation (captured variables never reassigned); the free-variable and ^-prefix walkers (newExistentialVariablesSet, iteratedGoalTerm, newVariableSet, newFreeVariablesSet) test term shapes only after Env.Resolve.",
+         "Fragment: that bagof/setof's groups partition the solutions (one group per witness class, every solution once) needs the answer set of an arbitrary goal and is not decided; collectionOf's witness loop and Env.set (setof's sort+dedupe) are not under contract; renamedCopy and Env.Resolve are trusted.",
+         "contract-based deductive verification: WP over go/ssa with map invariants, closures as functions, structural data-flow obligations", "DESIGN.md 5 C11"),
 }
 
 NA_REASON = {
